@@ -6,8 +6,8 @@ import random
 class Prop(PoolProp):
     pid = "C03"
     focus = "calls"
-    real_scenarios_quick = ("factory_quota_two_calls", "low_fd_limit")
-    real_scenarios = ("factory_quota_two_calls", "factory_quota_bounded", "d19_late_retirement", "low_fd_limit")
+    real_scenarios_quick = ("factory_quota_two_calls", "low_fd_limit", "thread_handover")
+    real_scenarios = ("factory_quota_two_calls", "factory_quota_bounded", "d19_late_retirement", "low_fd_limit", "thread_handover")
     p_factory = 0.6
     n_calls = [2, 2, 3, 4]
     rule = ("call histories of 2-4 calls on one pool (different lengths incl. empty, chunk sizes, ordered/unordered), factory "
